@@ -18,7 +18,7 @@ ASSUMPTIONS = ['counts have at most 4 decimal places (str() of smaller floats us
                'written string over all names and synonyms', 'mass reference: frozen NIST table']
 
 KEYS = ['C', 'Ce', 'e', 'H', 'He', 'N', 'n', 'Na', 'p', 'P', 'D', 'T', '13C', '2H', '15N', 'S', 'Se', 'Cl', '2D', '3T', '3H']
-COUNTS = [-200, -12, -2, -1, 0, 1, 2, 12, 500, 0.5, -1.25, 0.0001]   # -12: 'H2e-12' must not read as an exponent
+COUNTS = [-200, -12, -2, -1, 0, 1, 2, 12, 500, 0.5, -1.25, 0.0001, 123.4567, 499.9999]   # -12: 'H2e-12' must not read as an exponent
 COUNTS3 = [-2, 0, 1, 12, 0.5]
 SEPS = ['', ' ', '|']
 GNAMES = ['Hex', 'HexNAc', 'HexN', 'HexS', 'HexNAc(S)', 'a-Hex', 'd-Hex', 'Neu', 'Neu5Ac', 'Pen', 'Acetyl', 'Me',
@@ -158,6 +158,17 @@ def check(case, ctx):
                 ref = ref_mass(exp)
                 if st != 'ok' or not lib.close(m, ref, 1e-6 + 1e-9 * sum(abs(v) for v in exp.values())):
                     ctx.fail('mass-of-written', ref, m, call=call, written=w)
+                # the same string asked for its average mass, then for its monoisotopic mass again (the mass of the string
+                # is the mass of the composition in either mode, whichever was asked first)
+                if st == 'ok':
+                    sta, ma = lib.call(p.chem_mass, w, False, None, sep)
+                    stb, mb = lib.call(p.chem_mass, dict(exp), False)
+                    stc, mc = lib.call(p.chem_mass, w, True, None, sep)
+                    ctx.evals += 3
+                    if sta != stb or (sta == 'ok' and not lib.close(ma, mb, 1e-6 + 1e-9 * sum(abs(v) for v in exp.values()))):
+                        ctx.fail('average-mass-of-written', mb, ma, call=call, written=w)
+                    if stc != 'ok' or mc != m:
+                        ctx.fail('mass-of-written-after-average', m, mc, call=call, written=w)
                 if hill and sep == '' and st == 'ok':
                     given = dict(comp)
                     for mono in (True, False):      # the composition is the caller's: asking for its mass leaves it alone
